@@ -21,6 +21,7 @@ JudgeC01(e, cfg, T) ==
   ELSE IF e.out.panic THEN "panic"
   ELSE IF e.out.merr # "" THEN "marshal-error"
   ELSE IF e.out.uerr # "" THEN "unmarshal-error"
+  ELSE IF ~e.out.sane THEN "decoded-slice-has-len-above-cap"
   ELSE IF ~Eq(T, e.out.back, Norm(cfg, T, e.v, TRUE)) THEN "value@" \o Diff(T, e.out.back, Norm(cfg, T, e.v, TRUE))
   ELSE IF ~e.out.backUTC THEN "time-not-utc"
   ELSE "ok"
@@ -176,7 +177,7 @@ NonOk(vs) == {i \in 1..Len(vs) : vs[i][2] # "ok"}
 Init == l = 1 /\ bad = 0
 Next == /\ l <= Len(Trace)
         /\ LET e == Trace[l]  vs == Judge(e) IN
-           /\ \A i \in NonOk(vs) : PrintT(<<"VERDICT", e.id, vs[i][1], vs[i][2]>>)
+           /\ \A i \in NonOk(vs) : PrintT("VERDICT " \o ToString(e.id) \o " " \o vs[i][1] \o " " \o vs[i][2])
            /\ bad' = bad + (IF NonOk(vs) = {} THEN 0 ELSE 1)
         /\ l' = l + 1
 Spec == Init /\ [][Next]_vars
